@@ -245,6 +245,10 @@ func (u *Unit) specIdent(e *SExpr, ctx *specCtx) (Val, error) {
 			return Val{T: u.hget(ctx.cur, "$alloc", sInt), Ty: tIntT}, nil
 		case "$lastjson":
 			return Val{T: u.hget(ctx.cur, "$lastjson", sStr), Ty: tStrT}, nil
+		case "$lastread":
+			return Val{T: u.hget(ctx.cur, "$lastread", sInt), Ty: tIntT}, nil
+		case "$lastreaderr":
+			return Val{T: u.hget(ctx.cur, "$lastreaderr", sBool), Ty: tBoolT}, nil
 		case "$chansent":
 			return Val{T: u.hget(ctx.cur, "$chansent", "(Array Int Int)"), S: "(Array Int Int)"}, nil
 		case "$chanlast":
